@@ -189,6 +189,19 @@ def r3_unit_flows_only_to_nest(w):
     return r
 
 
+def _impl_trait_chain(w, b):
+    """impl-trait paths of b and of the items it is nested in (derive-generated visitors are nested impls)"""
+    out = []
+    cur = b
+    for _ in range(6):
+        out.append((cur.j.get('impl_trait') or {}).get('path', ''))
+        parent = w.bodies.get(cur.parent) if getattr(cur, 'parent', None) else None
+        if parent is None:
+            break
+        cur = parent
+    return ' '.join(out) + ' ' + b.short
+
+
 def _is_config_trait_impl(b):
     return (b.j.get('impl_self') or {}).get('id') == CONFIG_ID and b.j.get('impl_trait') is not None
 
@@ -251,7 +264,7 @@ def _judge_use(w, r, b, u, work, direct):
 
 
 def r4_writers(w):
-    r = RuleResult('C12.R4', 'Config.tab_spaces is written only by Config constructors/builders and the CLI option mapping', floor=3)
+    r = RuleResult('C12.R4', 'Config.tab_spaces is written only by Config constructors/builders and the CLI option mapping', floor=3 if w.cli is not None else 2)
     for b in w.fn_bodies():
         if _is_config_trait_impl(b) and (b.j['impl_trait'] or {}).get('path') != 'std::default::Default':
             continue
@@ -278,6 +291,9 @@ def r4_writers(w):
                 ret = b.locals[0]['ty']['s']
                 cons = {'fn': b.short, 'value': [fmt_origin(o, b) for o in origs]}
                 returns_config = ret.split('::')[-1] == 'Config'
+                if not returns_config and 'serde' in _impl_trait_chain(w, b) and 'Config' in ret:
+                    r.ok(cons, 'derive(Deserialize): builds a Config from the caller\'s deserializer')
+                    continue
                 if not returns_config:
                     r.bad(cons, '%s|writer' % b.short,
                           'Config.tab_spaces is written in %s, which is not a Config constructor/builder (returns %s)' % (b.short, ret), b.loc(s['span']))
